@@ -38,6 +38,8 @@ var c10Prelude = []string{
 	// pure and recursive, slow on the way back up (the levels below the one where a deadline expires have completed)
 	"fslow = func(n) {if n == 0 {return 0}; r = self(n - 1); for si = 20000 {}; r + 1}",
 	"fbrk = func() {break}", "fcnt = func(x) {if x > 0 {continue}; x}", "fbrk2 = func() {fbrk()}",
+	// a path under construction on an image of the session (the image table belongs to the process: every session makes its own)
+	`image.new("c10s", 8, 8); image.move_to("c10s", 1, 1); image.line_to("c10s", 6, 1); 0`,
 }
 
 // c10DeepN: the largest n for which fcount(n) works in a fresh session with the harness' depth limit, minus a margin of
@@ -75,6 +77,8 @@ func c10Good(kind string, i int) string {
 		return fmt.Sprintf(`println("d%d", fcount(%d))`, i, c10DeepN)
 	case "macro":
 		return fmt.Sprintf(`println("m%d", mgood(%d), mgood(g))`, i, i)
+	case "imgdraw":
+		return fmt.Sprintf(`image.line_to("c10s", 6, %d); image.draw("c10s", [255, 0, 0]); println("i%d", base64(image.png("c10s")))`, 3+i%4, i)
 	case "slowcall":
 		return fmt.Sprintf(`println("s%d", fslow(%d))`, i, 20+10*(i%5)) // (an argument the earlier slowcalls have not computed yet)
 	default:
@@ -120,6 +124,10 @@ func c10Fail(kind string) string {
 		return "merr(1)"
 	case "deadline-in-macro-body":
 		return "mloop(1)"
+	case "failing-draw-mid-path":
+		return `image.draw("c10s", [300, 0, 0])`
+	case "failing-segment-mid-path":
+		return `image.cube_to("c10s", 1, 1, 1e30, 1, 1, 1)`
 	case "parse-error":
 		return "g = 1 +* 2 )"
 	case "parse-error-unterminated":
@@ -222,18 +230,18 @@ func checkC10(c *Ctx) {
 		return
 	}
 	c.Cov("deep_recursion_n", c10DeepN)
-	cfg := func(maxOps int, bursts string, dev [6]bool, emit bool) string {
+	cfg := func(maxOps int, bursts string, dev [7]bool, emit bool) string {
 		b := func(x bool) string {
 			if x {
 				return "TRUE"
 			}
 			return "FALSE"
 		}
-		return fmt.Sprintf("CONSTANTS\n NumRegisters = 8\n MaxOps = %d\n Bursts = %s\n WriterRestored = %s\n LoopReleases = %s\n MacroStateFresh = %s\n DepthBalanced = %s\n ParserFresh = %s\n ErrorsNotCached = %s\n EmitOn = %s\nINIT Init\nNEXT Next\nVIEW view\nINVARIANT FailureIsInvisible\n",
-			maxOps, bursts, b(dev[0]), b(dev[1]), b(dev[2]), b(dev[3]), b(dev[4]), b(dev[5]), b(emit))
+		return fmt.Sprintf("CONSTANTS\n NumRegisters = 8\n MaxOps = %d\n Bursts = %s\n WriterRestored = %s\n LoopReleases = %s\n MacroStateFresh = %s\n DepthBalanced = %s\n ParserFresh = %s\n ErrorsNotCached = %s\n RefusedCallIsNoOp = %s\n EmitOn = %s\nINIT Init\nNEXT Next\nVIEW view\nINVARIANT FailureIsInvisible\n",
+			maxOps, bursts, b(dev[0]), b(dev[1]), b(dev[2]), b(dev[3]), b(dev[4]), b(dev[5]), b(dev[6]), b(emit))
 	}
-	allTrue := [6]bool{true, true, true, true, true, true}
-	for d := 0; d < 6; d++ {
+	allTrue := [7]bool{true, true, true, true, true, true, true}
+	for d := 0; d < 7; d++ {
 		dev := allTrue
 		dev[d] = false
 		r, err := c.TLC(TLCOpt{Spec: "Session", Cfg: cfg(3, "{1, 9}", dev, false), Workers: 2, AllowError: true})
@@ -246,7 +254,7 @@ func checkC10(c *Ctx) {
 			return
 		}
 	}
-	c.Cov("design_counterexamples", "WriterRestored, LoopReleases, MacroStateFresh, DepthBalanced, ParserFresh, ErrorsNotCached = FALSE each violate FailureIsInvisible")
+	c.Cov("design_counterexamples", "WriterRestored, LoopReleases, MacroStateFresh, DepthBalanced, ParserFresh, ErrorsNotCached, RefusedCallIsNoOp = FALSE each violate FailureIsInvisible")
 	r, err := c.TLC(TLCOpt{Spec: "Session", Cfg: cfg(c.Pick(3, 4), "{1, 9}", allTrue, true), Workers: 1})
 	if err != nil {
 		c.Infra(err)
@@ -305,11 +313,12 @@ func checkC10(c *Ctx) {
 	c.Cov("histories_emitted", n)
 	// every failure kind followed by every kind of good input, never sampled out: a burst of 1, 2 and 9 failing inputs, then the
 	// good input (slow failure kinds: once and twice)
-	allGoods := []string{"print", "loop", "call", "define", "incr", "loopvar", "deep", "macro", "slowcall"}
+	allGoods := []string{"print", "loop", "call", "define", "incr", "loopvar", "deep", "macro", "slowcall", "imgdraw"}
 	allFails := []string{"err-nested-calls", "err-in-top-loop", "err-in-nested-loops", "panic-in-function", "depth-overflow", "deadline", "memory-guard", "panic-in-top-loop",
 		"memory-guard-top-level", "depth-overflow-expression", "arity-error-top-call", "param-bind-error-top-call", "depth-overflow-in-macro-body", "error-in-macro-body",
 		"deadline-in-macro-body", "print-then-panic-in-function", "depth-overflow-in-library-function", "depth-overflow-in-eval", "panic-in-eval", "parse-error",
-		"parse-error-unterminated", "parse-error-too-deep", "break-reaches-function-end", "continue-reaches-function-end-in-loop", "deadline-in-pure-recursion"}
+		"parse-error-unterminated", "parse-error-too-deep", "break-reaches-function-end", "continue-reaches-function-end-in-loop", "deadline-in-pure-recursion",
+		"failing-draw-mid-path", "failing-segment-mid-path"}
 	pairs := 0
 	for _, fk := range allFails {
 		bursts := []int{1, 2, 9}
